@@ -71,8 +71,10 @@ enum Sym {
     AddrStart,
     AddrEnd,
     Label,
+    /// a nested label `.nK` (only legal after a top-level symbol; never padded by labelalign)
+    NestedLabel,
 }
-const SYMS: [Sym; 12] = [Sym::BankA, Sym::BankB, Sym::DataUnit, Sym::DataBit, Sym::DataTwoUnits, Sym::Res1, Sym::Res0, Sym::Align2, Sym::AddrFwd, Sym::AddrStart, Sym::AddrEnd, Sym::Label];
+const SYMS: [Sym; 13] = [Sym::BankA, Sym::BankB, Sym::DataUnit, Sym::DataBit, Sym::DataTwoUnits, Sym::Res1, Sym::Res0, Sym::Align2, Sym::AddrFwd, Sym::AddrStart, Sym::AddrEnd, Sym::Label, Sym::NestedLabel];
 
 struct Config {
     banks: Vec<BankSrc>,
@@ -123,7 +125,13 @@ fn make_configs(thorough: bool) -> Vec<Config> {
                         };
                         let b = BankSrc { name: "b".into(), bits: Some(sb.bits), addr: Some(2), size: sb.size, outp, fill: fill_b, labelalign: if fill_b { Some(2 * sb.bits) } else { None } };
                         for order in [vec![0usize, 1], vec![1, 0]] {
-                            out.push(Config { banks: vec![a.clone(), b.clone()], order });
+                            out.push(Config { banks: vec![a.clone(), b.clone()], order: order.clone() });
+                            if sb.bits == 8 && sa.bits != 8 {
+                                // the second bank leaves `bits` out: the documented default unit (8), whatever was defined before
+                                let mut b2 = b.clone();
+                                b2.bits = None;
+                                out.push(Config { banks: vec![a.clone(), b2], order });
+                            }
                         }
                     }
                 }
@@ -179,7 +187,7 @@ fn build_prog(cfg: &Config, seq: &[usize]) -> Prog {
     let mut nlabel = 0;
     for s in seq {
         let b = &cfg.banks[cur];
-        let bits = b.bits.unwrap();
+        let bits = b.bits.unwrap_or(8);
         let addr = b.addr.unwrap();
         match SYMS[*s] {
             Sym::BankA => {
@@ -206,6 +214,10 @@ fn build_prog(cfg: &Config, seq: &[usize]) -> Prog {
             Sym::Label => {
                 nlabel += 1;
                 items.push(Item::Label(format!("L{}", nlabel)));
+            }
+            Sym::NestedLabel => {
+                nlabel += 1;
+                items.push(Item::Label(format!(".n{}", nlabel)));
             }
         }
     }
